@@ -73,6 +73,7 @@ pub fn eval(out: &mut Out, op: &str, args: &[&str]) -> Option<String> {
                 let (e1, tt, a1) = (env.clone(), t2.clone(), a.clone());
                 match guarded(move || a1.to_bytes_with_types(&e1, &[tt.clone()]).and_then(|b| IDLArgs::from_bytes_with_types(&b, &e1, &[tt]))) {
                     Ok(Ok(a2)) if sexp::vals(&a2.args, true) == sexp::vals(&a.args, true) => {}
+                    _ if empty_record_ref_env(&env, &[&t, &t2]) => out.stat("inhabit:skipped-empty-record-ref-environment"),
                     _ => out.oracle_failure("value decoded at the supertype does not inhabit it", &line),
                 }
                 res.push(sexp::val(&a.args[0], true));
@@ -80,6 +81,47 @@ pub fn eval(out: &mut Out, op: &str, args: &[&str]) -> Option<String> {
         }
     }
     Some(format!("sub:{} dec:{}", s, res.join(" ")))
+}
+
+
+/// Known finding KF-C03-empty-record-ref: the decoder replaces uninhabited recursive records (`type T = record { f : T }`)
+/// by `empty` before decoding, after which a reference type mentioning one no longer passes its subtype check against
+/// the type it was encoded at.  The implementation-level oracles of this file are not run in such an environment (the
+/// comparison with the specification still is, and reports the finding by its tag).
+fn uninhabited_records(env: &TypeEnv) -> bool {
+    use std::collections::HashMap;
+    fn inhabited(env: &TypeEnv, inh: &HashMap<String, bool>, t: &Type) -> bool {
+        match t.as_ref() {
+            TypeInner::Var(x) => *inh.get(x).unwrap_or(&true),
+            TypeInner::Record(fs) => fs.iter().all(|f| inhabited(env, inh, &f.ty)),
+            _ => true,
+        }
+    }
+    let mut inh: HashMap<String, bool> = env.0.keys().map(|k| (k.clone(), false)).collect();
+    loop {
+        let mut changed = false;
+        for (k, t) in env.0.iter() {
+            if !inh[k] && inhabited(env, &inh, t) {
+                inh.insert(k.clone(), true);
+                changed = true;
+            }
+        }
+        if !changed {
+            break;
+        }
+    }
+    inh.values().any(|b| !*b)
+}
+fn has_ref(t: &Type) -> bool {
+    match t.as_ref() {
+        TypeInner::Func(_) | TypeInner::Service(_) => true,
+        TypeInner::Opt(x) | TypeInner::Vec(x) => has_ref(x),
+        TypeInner::Record(fs) | TypeInner::Variant(fs) => fs.iter().any(|f| has_ref(&f.ty)),
+        _ => false,
+    }
+}
+fn empty_record_ref_env(env: &TypeEnv, ts: &[&Type]) -> bool {
+    uninhabited_records(env) && (ts.iter().any(|t| has_ref(t)) || env.0.values().any(has_ref))
 }
 
 /// does `t` unfold to opt (opt (…)) for ever?  (known finding KF-C04-mu-opt: such expected types are excluded
@@ -116,6 +158,10 @@ fn chain_oracle(ctx: &mut Ctx, env: &TypeEnv, t: &Type, t2: &Type, t3: &Type, v:
     }
     if mentions_opt_cycle(env, &[t, t2, t3]) {
         ctx.out.stat("chain:skipped-mu-opt-environment");
+        return;
+    }
+    if empty_record_ref_env(env, &[t, t2, t3]) {
+        ctx.out.stat("chain:skipped-empty-record-ref-environment");
         return;
     }
     ctx.out.stat("chain:accepted");
